@@ -8,6 +8,7 @@ from ..core import Violation
 from ..gen import prob
 from ..observe import run_async
 from ..sched import run_scheduled
+from ..observe import arun as _arun
 
 ID = "C15"
 LEVEL = "exploration"
@@ -176,7 +177,10 @@ def check_case(case, ev):
         ev.discard("construct:" + type(e).__name__ + ":" + str(e).split("\n")[0][:50])
         return
     if method == "map":
-        res0 = asyncio.run(AsyncRunner().map(g0, dict(mvals), **kw, **run_kw))
+        try:
+            res0 = _arun(AsyncRunner().map(g0, dict(mvals), **kw, **run_kw))
+        except Exception as e:  # noqa: BLE001
+            raise Violation("c15.raised", f"[unlimited map] raised {type(e).__name__}: {str(e)[:200]}", deadlock=type(e).__name__ == "Deadlock") from None
         want = [(r.status.value, r.values) for r in res0]
     else:
         o0 = run_async(g0, mvals, **run_kw)
@@ -208,8 +212,10 @@ def check_case(case, ev):
         labels.add("pre:earlier_loop")
         the_runner = AsyncRunner()
         try:
-            asyncio.run(the_runner.map(g, {**vals, "x": [("e", j) for j in range(k + 2)]}, map_over="x", max_concurrency=k, error_handling="continue"))
+            _arun(the_runner.map(g, {**vals, "x": [("e", j) for j in range(k + 2)]}, map_over="x", max_concurrency=k, error_handling="continue"))
         except Exception as e:  # noqa: BLE001
+            if type(e).__name__ == "Deadlock":
+                raise Violation("c15.deadlock", f"[earlier loop] bounded map(max_concurrency={k}) over {k + 2} items never returned: {e}", k=k) from None
             raise Violation("c15.raised", f"[earlier loop] bounded map raised {type(e).__name__}: {str(e)[:200]}") from None
         ctx.reset()
     pre = None
